@@ -196,15 +196,12 @@ class MPRNLRI(Attribute, Family):
         # - With LLNH negotiated, 16-byte link-local (fe80::/10) is explicitly allowed
         # - Semantic interpretation of 16-byte NH depends on LLNH negotiation
         if negotiated.nexthop:
-            if len_nh in (16, 32, 24):
-                nh_afi = AFI.ipv6
-            elif len_nh in (4, 12):
-                nh_afi = AFI.ipv4
-            else:
-                raise Notify(
-                    3, 0, 'unsupported family {} {} with extended next-hop capability enabled'.format(afi, safi)
-                )
-            length, _ = Family.size[(nh_afi, safi)]
+            # RFC 8950: the next hop of another family is only allowed for the (AFI, SAFI, next hop AFI)
+            # tuples which were negotiated.  Looking the size up for every family raised KeyError for
+            # l2vpn or bgp-ls (no such IP family) and refused flow routes, which carry no next hop.
+            nh_afi = AFI.ipv6 if len_nh in (16, 32, 24) else AFI.ipv4 if len_nh in (4, 12) else None
+            if nh_afi is not None and (afi, safi, nh_afi) in negotiated.nexthop:
+                length, _ = Family.size[(nh_afi, safi)]
 
         if len_nh not in length:
             raise Notify(
